@@ -241,6 +241,15 @@ pub fn verif_root() -> PathBuf {
     PathBuf::from(std::env::var("VERIF_ROOT").unwrap_or_else(|_| "/verif".to_string()))
 }
 
+/// Where evidence and replay files go: /verif normally, a private directory when the checks
+/// run against another checkout (VERIF_REPO), so that such runs never overwrite the evidence.
+pub fn out_root() -> PathBuf {
+    match std::env::var("VERIF_OUT") {
+        Ok(p) if !p.is_empty() => PathBuf::from(p),
+        _ => verif_root(),
+    }
+}
+
 pub fn load_known_findings() -> Vec<KnownFinding> {
     let p = verif_root().join("known_findings.json");
     let Ok(txt) = std::fs::read_to_string(&p) else {
@@ -401,7 +410,7 @@ impl Ctx {
     pub fn finish(&self, rule: &str, assumptions: &[&str], extra: Value) -> i32 {
         let mut guard = self.inner.lock().unwrap();
         let g: &mut CtxInner = &mut guard;
-        let root = verif_root();
+        let root = out_root();
         let known = load_known_findings();
         let mut exit = 0;
 
